@@ -118,6 +118,8 @@ type Env struct {
 	// WitVerifs are verifiers for each configured witness signer.
 	WitVerifs []note.Verifier
 	LogByID   map[string]LogCfg
+	// X holds per-environment extras set by checks (e.g. an HTTP handler).
+	X map[string]any
 }
 
 // Signers resolves signer names.
@@ -150,7 +152,7 @@ func Signers(u *uni.U, names []string) ([]note.Signer, []note.Verifier) {
 
 // NewEnv builds the witness.
 func NewEnv(u *uni.U, cfg Config) *Env {
-	e := &Env{U: u, Cfg: cfg, LogByID: map[string]LogCfg{}}
+	e := &Env{U: u, Cfg: cfg, LogByID: map[string]LogCfg{}, X: map[string]any{}}
 	switch {
 	case cfg.Store == "mem":
 		e.Raw = inmemory.NewPersistence()
